@@ -36,8 +36,15 @@ def gen_world(rng):
     fields = []
     kinds = []
     for i in range(nf):
-        k = rng.choice(['u8', 'u8', 'u16', 'str'])
+        k = rng.choice(['u8', 'u8', 'u16', 'str', 'bits'])
+        if k == 'bits' and kinds and kinds[-1] == 'bits':
+            k = 'u8'      # (whether two adjacent groups of bit fields share a byte is a layout question of C10, not generated here)
         kinds.append(k)
+        if k == 'bits':
+            # two bit fields sharing one byte (the fields behind them start one byte later, not two)
+            fields.append({'name': 'f%da' % i, 'kind': 'bit', 'type': 'BI0:1', 'first': 0, 'nbits': 1, 'lead': True})
+            fields.append({'name': 'f%db' % i, 'kind': 'bit', 'type': 'BI1:2', 'first': 1, 'nbits': 2, 'lead': False})
+            continue
         fields.append({'name': 'f%d' % i, 'kind': k, 'type': {'u8': 'UCH', 'u16': 'UIN', 'str': 'STR:2'}[k]})
     conds = []
     nc = rng.randrange(1, 6)
@@ -183,6 +190,11 @@ def shard(args):
                     elif f['kind'] == 'u16':
                         v = rng.choice([rng.randrange(0, 12), rng.randrange(0, 12), rng.randrange(0, 60000)])
                         data += bytes([v & 0xff, v >> 8])
+                    elif f['kind'] == 'bit':
+                        if f['lead']:
+                            bitbyte = rng.randrange(256)
+                            data += bytes([bitbyte])
+                        v = (bitbyte >> f['first']) & ((1 << f['nbits']) - 1)
                     else:
                         v = rng.choice(['ab', 'cd', 'xy', 'zz', 'qq'])
                         data += v.encode().ljust(2, b' ')
